@@ -5,6 +5,8 @@
 -/
 import CijModel.Wire
 import CijModel.Tasks
+import CijModel.TasksGlue
+import Generated.TasksGlue
 import CijModel.Ops.C03
 open Lean Cij Cij.Wire Cij.Shear Cij.Tasks Cij.Ops.C03
 
@@ -23,12 +25,13 @@ def allclose1 (t : Tol) (a b : List Float) : Bool := a.length == b.length && (a.
 
 def rowList (r : Vec3 Float) : List Float := [r 0, r 1, r 2]
 
-/-- `PhononContributionTaskParams.__eq__(self, other)` -/
-def peqF (t : Tol) : Params Float → Params Float → Bool
-  | .nonshear c a b, .nonshear c' a' b' => c == c' && allclose1 t a a' && allclose1 t b b'
-  | .shear s k, .shear s' k' => k == k' && s.length == s'.length &&
-      (s.zip s').all fun p => allclose1 t (rowList p.1) (rowList p.2)
-  | _, _ => false
+/-- `PhononContributionTaskParams.__eq__(self, other)`: the hand-written `TasksGlue.peqModel` (proved equal to the meaning of the
+`__eq__` translated from tasks.py on this run, `c04_glue_is_source_eq`) with `numpy.allclose`'s formula on the flattened arrays -/
+def peqF (t : Tol) : Params Float → Params Float → Bool := Cij.TasksGlue.peqModel (allclose1 t)
+
+/-- the same relation read off the translated decision list (`Generated.TasksGlue.eqSpec`) -/
+def peqSrcF (t : Tol) : Params Float → Params Float → Bool :=
+  Cij.TasksGlue.peqOfSpec Generated.TasksGlue.eqSpec (allclose1 t)
 
 def tolOfJson (j : Json) : Except String Tol := do
   pure ⟨← floatOfJson (← field j "rtol"), ← floatOfJson (← field j "atol")⟩
@@ -109,6 +112,44 @@ def handle : Handler := fun op j =>
             pure (Json.mkObj [("valid_order", Json.bool valid), ("iso", jr ri), ("adi", jr ra),
               ("store_iso", jFloats2 (whole (·.1))), ("store_adi", jFloats2 (whole (·.2)))])
         | _, _ => pure (Json.str "error")
+  | "c04.eq" => some do
+      -- pairs of (strain, key): `create(a) == create(b)` by the hand-written relation, by the translated decision list, and the
+      -- result of running the TRANSLATED `resolve` on the same request as a task count (0 = out of fuel / ill-typed)
+      let t ← tolOfJson j
+      let one (e : Json) : Except String (Params Float) := do
+        pure (create (← sfieldOfJson (← field e "strain")) (← keyOfJson (← field e "key")))
+      let pairs ← listOf (fun e => do pure ((← one (← field e "a")), (← one (← field e "b")))) (← field j "pairs")
+      pure (Json.arr (pairs.map fun ab =>
+        Json.arr #[Json.bool (peqF t ab.1 ab.2), Json.bool (peqSrcF t ab.1 ab.2)]).toArray)
+  | "c04.store" => some do
+      -- a history of `store[(strain, key)] = v` / `store[(strain, key)]` on two result stores: `Store` append and `Store.get`
+      let t ← tolOfJson j
+      let ops ← arrOfJson (← field j "ops")
+      let step (acc : Except String (Array (Store Float) × Array Json)) (o : Json) : Except String (Array (Store Float) × Array Json) := do
+        let (stores, out) ← acc
+        let i ← natOfJson (← field o "st")
+        let e ← field o "p"
+        let p := create (← sfieldOfJson (← field e "strain")) (← keyOfJson (← field e "key"))
+        match o.getObjVal? "v" with
+        | .ok v => pure (stores.modify i (· ++ [(p, ← floatOfJson v)]), out)
+        | .error _ =>
+            pure (stores, out.push (match Store.get (peqF t) (stores[i]?.getD []) p with
+              | some v => floatToJson v
+              | none => Json.str "missing"))
+      let (_, out) ← ops.foldl step (pure (#[[], []], #[]))
+      pure (Json.arr out)
+  | "c04.resolve_src" => some do
+      -- the TRANSLATED work-list program (Generated.TasksGlue.workList / depsSpec / eqSpec) run on the same request
+      let strain ← sfieldOfJson (← field j "strain")
+      let keys ← listOf keyOfJson (← field j "keys")
+      let eig ← eigOfJson (← field j "eig")
+      let t ← tolOfJson j
+      match Cij.TasksGlue.runResolve Generated.TasksGlue.workList (peqSrcF t)
+          (Cij.TasksGlue.depsOfSpec Generated.TasksGlue.depsSpec isZeroF eig) (fuelFor isZeroF eig keys) strain keys with
+      | none => pure (Json.str "out-of-fuel")
+      | some st => pure (Json.mkObj [
+          ("tasks", Json.arr (st.tasks.map jTask).toArray),
+          ("edges", jEdges st.edges)])
   | _ => none
 
 end Cij.Ops.C04
